@@ -96,6 +96,7 @@ type Exec struct {
 	inlineAll    int  // >0: bounded lemma: callees are inlined (contracts ignored), loops unrolled up to this bound
 	tolerant     bool // executing package initialisers: unknown calls yield unknown values
 	initBase     int
+	dstIsDiscard bool // the call being modelled writes to io.Discard / ioutil.Discard
 	inOldSpec    bool
 	oldState     *State // entry state of the call whose ensures is being evaluated (ghost_old_* accessors)
 	freshBase    *Term  // "allocated during the call" threshold while a callee's ensures is being assumed
@@ -455,7 +456,7 @@ type pathLimit struct{}
 
 var forkStats map[string]int
 
-const pruneAfter = 48 // forks per function before the incremental solver is consulted at branches
+var pruneAfter = 3000 // forks per function before the incremental solver is consulted at branches
 
 func showTerm(t *Term, d int) string {
 	switch t.Op {
